@@ -827,6 +827,12 @@ func main() {
 		def(fn.lean, "List String", skeleton(funcs[fn.name]))
 	}
 
+	gq := make([]string, len(guards))
+	for i, g := range guards {
+		gq[i] = q(g)
+	}
+	def("countGuards", "List String", "["+strings.Join(gq, ", ")+"]")
+
 	fmt.Fprintf(&out, "end Gen.C14\n")
 	if *outPath == "" {
 		os.Stdout.Write(out.Bytes())
@@ -836,6 +842,24 @@ func main() {
 		fmt.Fprintln(os.Stderr, err)
 		os.Exit(1)
 	}
+}
+
+// input-count guards (`x.CheckCount(count, minBytes)` as a statement of its own) found in the
+// skeleton functions: they only reject input that could not be read anyway, so they are not part
+// of the call skeleton; they are listed separately ("Func: stmt") and have their own obligation.
+var guards []string
+
+func isCountGuard(st ast.Stmt) bool {
+	es, ok := st.(*ast.ExprStmt)
+	if !ok {
+		return false
+	}
+	c, ok := es.X.(*ast.CallExpr)
+	if !ok {
+		return false
+	}
+	sel, ok := c.Fun.(*ast.SelectorExpr)
+	return ok && sel.Sel.Name == "CheckCount"
 }
 
 // skeleton prints every top-level statement of the body on one line with identifiers renamed:
@@ -901,6 +925,10 @@ func skeleton(fd *ast.FuncDecl) string {
 			}
 		}
 		txt = strings.Join(keep, "; ")
+		if isCountGuard(st) {
+			guards = append(guards, fd.Name.Name+": "+renameIdents(txt, ren))
+			continue
+		}
 		lines = append(lines, q(renameIdents(txt, ren)))
 	}
 	return "[" + strings.Join(lines, ",\n   ") + "]"
